@@ -147,12 +147,15 @@ Theorem C19_graph_constructor : forall m, NoDup (map fst m) ->
 Proof. exact graph_of_mapping_shape. Qed.
 Print Assumptions C19_graph_constructor.
 
-(* ---- finding C19-periodic-loader: WorkloadLoader (with a flags object) cannot instantiate a periodic policy *)
-Theorem C19_loader_periodic_refuted : exists c ls, load_workload (lc_profiles c) (lc_graphs c) (lc_flags c) = Ok ls /\
-  (exists l, In l ls /\ p_type (jg_policy (l_jg l)) = PERIODIC) /\
-  forall us_, populate ls (mkIF (df_minb (lc_flags c)) (df_maxb (lc_flags c)) (0, 0)) (lc_completion c) [] [] us_ 0 = Err 4.
-Proof. exact loader_periodic_refuted. Qed.
-Print Assumptions C19_loader_periodic_refuted.
+(* ---- regression of the former finding C19-periodic-loader (fixed in /repo 3effb4b): a periodic document is
+   instantiated by the loader model with the horizon EventTime(loop_timeout) *)
+Theorem C19_loader_periodic_instantiated :
+  exists ls tgs, load_workload (lc_profiles periodic_doc) (lc_graphs periodic_doc) (lc_flags periodic_doc) = Ok ls /\
+    populate ls (mkIF 0 (2 ^ 63 - 1) (0, 0)) (lc_completion periodic_doc) [] []
+             [mkF 0 0; mkF 0 0; mkF 0 0; mkF 0 0; mkF 0 0; mkF 0 0; mkF 0 0; mkF 0 0] 0 = Ok tgs /\
+    map (fun x => map (fun tg => map (fun t => et_time (t_release t)) (tg_tasks tg)) (snd x)) tgs = [[[5]; [305]; [605]; [905]]].
+Proof. exact loader_periodic_instantiated. Qed.
+Print Assumptions C19_loader_periodic_instantiated.
 
 (* ---- monitors = statements *)
 Theorem C19_mon_fixed : forall s per n obs, mon_fixed s per n obs = true <-> map us_time obs = fixed_spec s per n.
